@@ -132,6 +132,7 @@ func (c *XAConn) BeginTx(ctx context.Context, opts driver.TxOptions) (driver.Tx,
 
 	tx, err := c.Conn.BeginTx(ctx, opts)
 	if err != nil {
+		c.autoCommit = true
 		return nil, err
 	}
 	c.tx = tx
